@@ -13,6 +13,8 @@ import (
 	"github.com/mdlayher/corerad/internal/plugin"
 	"github.com/mdlayher/corerad/internal/verifsim"
 	"github.com/mdlayher/ndp"
+	"net/netip"
+	"github.com/mdlayher/corerad/internal/system"
 )
 
 func c16Config(rng *verifsim.RNG, s *IfaceSpec) []time.Duration {
@@ -76,6 +78,16 @@ func c16Gen(rng *verifsim.RNG, idx int, tier string) *Plan {
 			// between two readings taken while one RA is being built
 			p.Class = "clock-seam-per-call"
 			p.Opt = map[string]int64{"per_call": 1}
+			if rng.Bool(0.5) {
+				// ... and between two options which one wildcard stanza expands to
+				r := RouteSpec{Prefix: sp("::/0"), Deprecated: true, Preference: triPref(rng)}
+				v := time.Duration(rng.Range(5, 4000)) * time.Second
+				r.Lifetime = sp(v.String())
+				deadlines = append(deadlines, v)
+				s.Routes = append(s.Routes, r)
+				p.Loop = []RouteW{{Prefix: "2001:db8:100::/48"}, {Prefix: "2001:db8:200::/56"}, {Prefix: "fd00:aa::/32"}}[:rng.Range(2, 3)]
+				p.Class = "clock-seam-per-call+wildcard-route"
+			}
 		}
 		t := -int64(rng.Dur(0, 10*time.Second))
 		if rng.Bool(0.5) {
@@ -241,6 +253,14 @@ func init() {
 					pl.TimeNow = tick
 				case *plugin.Route:
 					pl.TimeNow = tick
+					loop := p.Loop
+					pl.Routes = func() ([]system.Route, error) {
+						var out []system.Route
+						for _, r := range loop {
+							out = append(out, system.Route{Prefix: netip.MustParsePrefix(r.Prefix), Index: 1})
+						}
+						return out, nil
+					}
 				case *plugin.LLA:
 					pl.Addr = parseMAC(p.Nodes[0].Ifaces[0].MAC)
 				}
@@ -306,6 +326,11 @@ func c16Check(res *verifsim.Result, info *runInfo, ra *ndp.RouterAdvertisement, 
 			continue
 		}
 		for i := range e {
+			// everything one stanza expands to in one RA carries that stanza's
+			// lifetimes: the same ones
+			if i > 0 && e[i].stanza != "" && e[i].stanza == e[i-1].stanza && e[i].fixed == x[i].fixed && e[i-1].fixed == x[i-1].fixed && fmt.Sprint(x[i].v) != fmt.Sprint(x[i-1].v) {
+				res.Violate("C16.value", "same-stanza", "%s: %s and %s were expanded from one stanza but carry different lifetimes", where, x[i-1], x[i])
+			}
 			if e[i].fixed != x[i].fixed {
 				res.Violate("C16.constant", "identity", "%s: wire %s, expected %s", where, x[i], e[i])
 				continue
@@ -364,6 +389,9 @@ func c16Oracle(info *runInfo, res *verifsim.Result) {
 			ra := parseRA(e.B)
 			t := info.epochs[0] + e.V
 			in := modelIn{spec: spec, fwd: true, mac: info.plan.Nodes[0].Ifaces[0].MAC, nLoop: 1, epoch: info.epochs[0], t1: t, t2: t + int64(e.Ref)}
+			for range spec.Routes {
+				in.routes = append(in.routes, routeListString(info.plan.Loop)) // one listing per wildcard stanza is all the model takes
+			}
 			if e.Ref > 0 {
 				res.Probe("clock_advanced_within_one_build")
 			}
